@@ -22,7 +22,9 @@ def run(ctx):
     ctx.tlc_must_pass("MC_Decoder", "MC_Decoder_q", timeout=900)
     ctx.tlc_must_pass("MC_EncoderBytes", "MC_EncoderBytes_q" if quick else "MC_EncoderBytes_t", timeout=3000)
     fams = ["wellformed", "runs", "longruns", "zerofirst", "open", "converse", "reuse"]
-    r = enccheck.run_enc_traces(ctx, fams, 400 if quick else 40000, ["err", "mode"], want=("rt", "dec"))
+    # "enc": a history without protocol violations must not fail (projection err/mode judged by TV_Encoder) - otherwise
+    # there would be no bytes to decode and the history would silently drop out of the round-trip comparison
+    r = enccheck.run_enc_traces(ctx, fams, 400 if quick else 40000, ["err", "mode"], want=("enc", "rt", "dec"))
     for kind, ds in r["diags"].items():
         for d in ds:
             fam = str(d.get("id")).split("/")[0]
